@@ -94,10 +94,23 @@ func cfgFileText(es []cfgEntry) string {
 func optArgs(o refOpt) []string {
 	switch o.Kind {
 	case "builtin":
-		if o.Pol == "include" {
-			return []string{"--" + o.Pat}
+		// the predefined-group options are boolean flags: an explicit value is allowed, and a false value turns the
+		// option into its opposite (--branches=false is --no-branches, --no-tags=0 is --tags)
+		pos, neg := "--"+o.Pat, "--no-"+o.Pat
+		if o.Pol == "exclude" {
+			pos, neg = neg, pos
 		}
-		return []string{"--no-" + o.Pat}
+		switch o.Spelling % 8 {
+		case 4:
+			return []string{pos + "=true"}
+		case 5:
+			return []string{neg + "=false"}
+		case 6:
+			return []string{neg + "=0"}
+		case 7:
+			return []string{pos + "=1"}
+		}
+		return []string{pos}
 	case "prefix":
 		if o.Spelling%2 == 0 {
 			return []string{"--" + o.Pol, o.Pat}
@@ -495,7 +508,7 @@ func genRefScenario(rng *rand.Rand, id string, class string) refScenario {
 		nopt = rng.Intn(3)
 	}
 	for i := 0; i < nopt; i++ {
-		o := refOpt{Pol: []string{"include", "exclude"}[rng.Intn(2)], Spelling: rng.Intn(4)}
+		o := refOpt{Pol: []string{"include", "exclude"}[rng.Intn(2)], Spelling: rng.Intn(8)}
 		switch k := rng.Intn(10); {
 		case k < 4:
 			o.Kind, o.Pat = "prefix", prefixPool[rng.Intn(len(prefixPool))]
